@@ -451,6 +451,29 @@ class ShellSetters:
                 sh.coord_type = v
             M.raises("shell/coord_type/rejects/%r" % (bad,), set_bad, exc)
         M.true("shell/coord_type/unchanged-after-rejection", sh.coord_type == "cartesian", repr(sh.coord_type))
+        # every setter rejects atomically: after a rejected update the shell holds exactly what it held before
+        K = 2
+        sh2 = make_shell(M, l, A, M.vec("d2", (K, 2)), M.vec("e2", K, "pos"), norm_cont=M.vec("n2", (2, (l + 1) * (l + 2) // 2), "pos"))
+        before = {k: v for k, v in sh2.__dict__.items()}
+
+        def rejected(name, fn, exc):
+            M.raises("shell/setter/%s/rejected" % name, fn, exc)
+            now = sh2.__dict__
+            same = set(now) == set(before) and all(now[k] is before[k] or (not isinstance(before[k], np.ndarray) and now[k] == before[k]) for k in before)
+            M.true("shell/setter/%s/shell-unchanged-after-rejection" % name, same, "attributes that differ: %s" % [k for k in before if k not in now or not (now[k] is before[k])][:4])
+
+        def setter(attr, val):
+            return lambda: setattr(sh2, attr, val)
+
+        rejected("coeffs-too-many-rows", setter("coeffs", M.vec("bad1", (K + 1, 2))), ValueError)
+        rejected("coeffs-1d-wrong-length", setter("coeffs", M.vec("bad2", K + 1)), ValueError)
+        rejected("coeffs-3d", setter("coeffs", M.vec("bad3", (K, 1, 1))), ValueError)
+        rejected("coeffs-list", setter("coeffs", [[1.0, 2.0]] * K), TypeError)
+        rejected("exps-wrong-length", setter("exps", M.vec("bad4", K + 1, "pos")), ValueError)
+        rejected("exps-list", setter("exps", [1.0] * K), TypeError)
+        rejected("coord-wrong-length", setter("coord", M.vec("bad5", 2)), (TypeError, ValueError))
+        rejected("angmom-negative", setter("angmom", -1), (TypeError, ValueError))
+        rejected("angmom-float", setter("angmom", 1.5), (TypeError, ValueError))
         pc = m["gbasis.integrals.point_charge"]
         pts, q = M.vec("R", (1, 3)), M.vec("q", 1)
         with bind.patched((pc.PointChargeIntegral, "boys_func", staticmethod(boys_stub(M)))):
